@@ -551,7 +551,7 @@ Fixpoint update_task_state_fuel (fuel : nat) (t : string) (route : nat) (evt : e
             r1 <- get_rec idx1 ;;
             (* a completed task that starts again is in a cycle: new entry *)
             idx <- (if ostatus_in (r_status r1) COMPLETED_STATUSES && status_in (ev_status evt) STARTING_STATUSES
-                       && match staged0 with Some _ => true | None => false end
+                       && match staged0 with Some s0 => negb (s_completed s0) | None => false end
                     then s <- need_staged ;; add_task_state t (s_route s) (s_in s) (s_prev s)
                     else ret idx1) ;;
             (* remove task from staging if task is not with items *)
